@@ -154,6 +154,14 @@ def run_tlc(module, cfg, use_cache=True, extra_args=(), env_extra=None, timeout=
     os.replace(tmp, out)
     json.dump(m, open(meta, "w"))
     m["out"] = out
+    # entries of the same model under an older specification are never used again: drop them
+    pat = re.compile(re.escape(name) + r"\.[0-9a-f]{20}\.out(\.json|\.failed|\.tmp)?$")
+    for fn in os.listdir(os.path.join(WORK, "tlc")):
+        if pat.match(fn) and ("." + key + ".") not in fn:
+            try:
+                os.remove(os.path.join(WORK, "tlc", fn))
+            except OSError:
+                pass
     return m
 
 
